@@ -1,7 +1,12 @@
 (* C14, for EVERY accepted text: the tree the PEG of the regenerated grammar returns is a
    derivation of that grammar (Derive.run_derives); on every derivation of `item` the walker and
    the constructors return Ok, or panic at one of the recorded sites (finding F11) -- never at
-   the `unreachable!`/`unwrap` sites that assume the grammar's shapes. *)
+   the `unreachable!`/`unwrap` sites that assume the grammar's shapes.
+
+   The proofs do not follow the nesting of the rule bodies: a tactic inverts a derivation through
+   sequences, choices, options and SILENT rules down to the token-producing rules, for which the
+   lemmas are stated, so that splitting, merging or renaming silent helper rules, re-nesting
+   sequences and reordering the rules leave them untouched. *)
 From Coq Require Import Lia.
 From XdrModel Require Import Grammar.
 From XdrProofs Require Export Derive FrontTotal.
@@ -23,95 +28,97 @@ Ltac look :=
          end.
 Ltac dinv H := inversion H; subst; clear H; look.
 
-(* ---------- leaves ---------- *)
+Ltac silent_ref r :=
+  let k := eval cbn in (lookup G r) in
+  match k with Some (Silent, _) => idtac end.
 
-Lemma D_ident ts : D (PRef "ident") ts -> exists sp, ts = [Node "ident" sp []].
-Proof. intros H. dinv H. eauto. Qed.
+(* one inversion step through everything that is not a repetition or a token-producing rule *)
+Ltac dstep :=
+  match goal with
+  | X : D (PSeq _ _) _ |- _ => dinv X
+  | X : D (PStr _) _ |- _ => dinv X
+  | X : D PSoi _ |- _ => dinv X
+  | X : D PEoi _ |- _ => dinv X
+  | X : D (PNot _) _ |- _ => dinv X
+  | X : D (PChoice _ _) _ |- _ => dinv X
+  | X : D (POpt _) _ |- _ => dinv X
+  | X : D (PRef ?r) _ |- _ => silent_ref r; dinv X
+  end.
+Ltac explode := repeat dstep.
 
-Lemma D_basic ts : D (PRef "basic_type") ts -> exists sp, ts = [Node "basic_type" sp []].
-Proof. intros H. dinv H. eauto. Qed.
+(* rewrite walk_list of an append of pieces whose walk is known *)
+Ltac wl :=
+  cbn [app walk_list];
+  repeat rewrite walk_list_app_gen;
+  repeat match goal with H : walk_list ?t = EOk _ |- context [walk_list ?t] => rewrite H end;
+  cbn [walk_list ebind app].
 
-Lemma D_value ts : D (PRef "ident_value") ts -> exists sp, ts = [Node "ident_value" sp []].
-Proof. intros H. dinv H. eauto. Qed.
+(* ---------- token-producing leaves ---------- *)
 
-Lemma D_const ts : D (PRef "ident_const") ts -> exists sp sp', ts = [Node "ident_const" sp [Node "ident" sp' []]].
-Proof. intros H. dinv H. match goal with X : D (PRef "ident") _ |- _ => destruct (D_ident _ X) as [sp' ->] end. eauto. Qed.
+Definition one_type (l : list node) : Prop := exists b, l = [NType b].
+Definition W (ts : list tree) (P : list node -> Prop) : Prop := exists l, walk_list ts = EOk l /\ P l.
 
-(* a list of trees that walks to one NType *)
-Definition one_type (ts : list tree) : Prop := exists b, walk_list ts = EOk [NType b].
+Lemma W_ident ts : D (PRef "ident") ts -> W ts one_type.
+Proof. intros H. dinv H. eexists. split; [reflexivity|]. eexists. reflexivity. Qed.
 
-Lemma W_ident ts : D (PRef "ident") ts -> one_type ts.
-Proof. intros H. destruct (D_ident ts H) as [sp ->]. eexists. reflexivity. Qed.
+Lemma W_basic ts : D (PRef "basic_type") ts -> W ts one_type.
+Proof. intros H. dinv H. eexists. split; [reflexivity|]. eexists. reflexivity. Qed.
 
-Definition ty_exp : pexp := PChoice (PRef "ident") (PRef "basic_type").
-Lemma W_ty ts : D ty_exp ts -> one_type ts.
-Proof.
-  intros H. dinv H.
-  - now apply W_ident.
-  - match goal with X : D (PRef "basic_type") _ |- _ => destruct (D_basic _ X) as [sp ->] end. eexists. reflexivity.
-Qed.
+Lemma W_value ts : D (PRef "ident_value") ts -> W ts one_type.
+Proof. intros H. dinv H. eexists. split; [reflexivity|]. eexists. reflexivity. Qed.
 
-Definition len_exp : pexp := PChoice (PRef "ident_value") (PRef "ident_const").
-Lemma W_len ts : D len_exp ts -> one_type ts /\ exists t, ts = [t].
-Proof.
-  intros H. dinv H.
-  - match goal with X : D (PRef "ident_value") _ |- _ => destruct (D_value _ X) as [sp ->] end. split; [eexists; reflexivity|eauto].
-  - match goal with X : D (PRef "ident_const") _ |- _ => destruct (D_const _ X) as (sp & sp' & ->) end. split; [eexists; reflexivity|eauto].
-Qed.
-
-(* ---------- array? ---------- *)
+Lemma W_const ts : D (PRef "ident_const") ts -> W ts one_type.
+Proof. intros H. dinv H; (eexists; split; [cbn [walk_list]; rewrite walk_node; reflexivity|]; eexists; reflexivity). Qed.
 
 Definition arrN (l : list node) : Prop := l = [] \/ exists s, l = [NArrayVariable s] \/ l = [NArrayFixed s].
+Definition arr1 (l : list node) : Prop := exists s, l = [NArrayVariable s] \/ l = [NArrayFixed s].
 
-Lemma W_arr ts : D (POpt (PRef "array")) ts -> exists l, walk_list ts = EOk l /\ arrN l.
+Lemma W_arrv ts : D (PRef "array_variable") ts -> W ts arr1.
+Proof. intros H. dinv H; (eexists; split; [cbn [walk_list]; rewrite walk_node; cbn; reflexivity|]; eexists; left; reflexivity). Qed.
+
+Lemma W_arrf ts : D (PRef "array_fixed") ts -> W ts arr1.
+Proof. intros H. dinv H; (eexists; split; [cbn [walk_list]; rewrite walk_node; cbn; reflexivity|]; eexists; right; reflexivity). Qed.
+
+(* use every leaf fact in the context *)
+Ltac leaf1 L :=
+  match goal with
+  | X : D (PRef ?r) ?t |- _ =>
+    let l := fresh "l" in let Hw := fresh "Hw" in let Hp := fresh "Hp" in
+    destruct (L _ X) as (l & Hw & Hp); clear X
+  end.
+Ltac leaves0 := repeat first [leaf1 W_ident | leaf1 W_basic | leaf1 W_value | leaf1 W_const | leaf1 W_arrv | leaf1 W_arrf].
+
+Lemma W_option ts : D (PRef "option") ts -> W ts (fun l => exists b, l = [NOption [NType b]]).
 Proof.
-  intros H. dinv H; [exists []; split; [reflexivity|now left]|].
-  match goal with X : D (PRef "array") _ |- _ => dinv X end.
-  match goal with X : D (PChoice _ _) _ |- _ => dinv X end.
-  - match goal with X : D (PRef "array_variable") _ |- _ => dinv X end.
-    eexists. split; [cbn [walk_list]; rewrite walk_node; cbn; reflexivity|]. right. eexists. left. reflexivity.
-  - match goal with X : D (PRef "array_fixed") _ |- _ => dinv X end.
-    eexists. split; [cbn [walk_list]; rewrite walk_node; cbn; reflexivity|]. right. eexists. right. reflexivity.
+  intros H. dinv H. explode. leaves0.
+  repeat match goal with X : one_type _ |- _ => destruct X as [? ->] end.
+  eexists. split; [cbn [walk_list]; rewrite walk_node; cbn [String.eqb Ascii.eqb Bool.eqb orb]; wl; reflexivity|]. eauto.
 Qed.
+
+Ltac leaves := repeat first [leaf1 W_ident | leaf1 W_basic | leaf1 W_value | leaf1 W_const | leaf1 W_arrv | leaf1 W_arrf | leaf1 W_option].
+Ltac classes :=
+  repeat match goal with
+         | X : one_type _ |- _ => destruct X as [? ->]
+         | X : arr1 _ |- _ => destruct X as [? [->| ->]]
+         | X : exists b, _ = [NOption [NType b]] |- _ => destruct X as [? ->]
+         end.
 
 (* ---------- data_field ---------- *)
 
 Definition nameN (n : node) : Prop := exists b, n = NType b \/ n = NOption [NType b].
-(* what a data_field walks to *)
 Definition fieldN (l : list node) : Prop := exists a nm arr, l = NType a :: nm :: arr /\ nameN nm /\ arrN arr.
 
-Lemma walk_list_app_ok a b na nb : walk_list a = EOk na -> walk_list b = EOk nb -> walk_list (a ++ b) = EOk (na ++ nb).
-Proof. apply walk_list_app. Qed.
-
-Lemma W_option ts : D (PRef "option") ts -> exists b, walk_list ts = EOk [NOption [NType b]].
+(* the children of a struct_data_field / union_data_field node: a data_field, through whatever
+   silent rules the grammar spells it with *)
+Lemma W_field_body r ts :
+  (r = "struct_data_field" \/ r = "union_data_field") -> D (PRef r) ts ->
+  exists sp cs l, ts = [Node r sp cs] /\ walk_list cs = EOk l /\ fieldN l.
 Proof.
-  intros H. dinv H. match goal with X : D (PSeq _ _) _ |- _ => dinv X end.
-  match goal with X : D (PStr _) _ |- _ => dinv X end.
-  match goal with X : D (PRef "ident") _ |- _ => destruct (D_ident _ X) as [sp' ->] end.
-  eexists. cbn [walk_list app]. rewrite walk_node. cbn. reflexivity.
+  intros [->| ->] H; dinv H; explode; leaves; classes;
+    (eexists _, _, _; split; [reflexivity|]; split; [wl; reflexivity|];
+     unfold fieldN, nameN, arrN; eexists _, _, _; split; [reflexivity|]; split; eauto 6).
 Qed.
 
-Lemma W_field ts : D (PRef "data_field") ts -> exists l, walk_list ts = EOk l /\ fieldN l.
-Proof.
-  intros H. dinv H.
-  repeat match goal with X : D (PSeq _ _) _ |- _ => dinv X end.
-  match goal with X : D (PStr _) _ |- _ => dinv X end.
-  match goal with X : D (PChoice (PRef "ident") (PRef "basic_type")) _ |- _ => destruct (W_ty _ X) as [a Ha] end.
-  match goal with X : D (POpt (PRef "array")) _ |- _ => destruct (W_arr _ X) as (arr & Harr & HarrN) end.
-  assert (Hn : exists nm, walk_list t0 = EOk [nm] /\ nameN nm).
-  { match goal with X : D (PChoice (PRef "option") (PRef "ident")) _ |- _ => dinv X end.
-    - match goal with X : D (PRef "option") _ |- _ => destruct (W_option _ X) as [b Hb] end.
-      eexists. split; [exact Hb|]. exists b. now right.
-    - match goal with X : D (PRef "ident") _ |- _ => destruct (W_ident _ X) as [b Hb] end.
-      eexists. split; [exact Hb|]. exists b. now left. }
-  destruct Hn as (nm & Hnm & HnmN).
-  exists ([NType a] ++ [nm] ++ arr ++ []). split.
-  - apply walk_list_app_ok; [exact Ha|]. apply walk_list_app_ok; [exact Hnm|]. apply walk_list_app_ok; [exact Harr|reflexivity].
-  - exists a, nm, arr. split; [cbn; now rewrite app_nil_r|]. split; assumption.
-Qed.
-
-(* StructField::new on it: Ok or the structure.rs panic (a name that is a primitive spelling; an
-   optional with a declarator) *)
 Lemma field_new_outcome l : fieldN l -> only_panics [E_STRUCT] (struct_field_new (NStructDataField l)).
 Proof.
   intros (a & nm & arr & -> & [b [->| ->]] & Harr); cbn [struct_field_new].
@@ -129,12 +136,21 @@ Proof.
   - constructor; now left.
 Qed.
 
+(* ---------- repetitions ---------- *)
+
+Lemma W_list (e : pexp) (P : list node -> Prop) :
+  (forall ts, D e ts -> W ts P) ->
+  forall tss, Forall (D e) tss -> exists ls, walk_list (concat tss) = EOk (concat ls) /\ Forall P ls.
+Proof.
+  intros He. induction 1 as [|ts tss H _ (ls & Hls & HlsP)]; [exists []; split; [reflexivity|constructor]|].
+  destruct (He ts H) as (l & Hl & HlP). exists (l :: ls). split; [|constructor; assumption].
+  cbn [concat]. now apply walk_list_app.
+Qed.
+
 (* ---------- declarations ---------- *)
 
 Definition SITES : list string := [E_ENUM; E_STRUCT; E_UNION].
 
-(* the outcome of walking one declaration: Ok with a node the constant index can read, or a
-   recorded panic *)
 Definition declR (m : eres (list node)) : Prop :=
   only_panics SITES m /\ forall l, m = EOk l -> Forall const_shaped l.
 
@@ -142,91 +158,88 @@ Lemma in_sites_1 : incl [E_ENUM] SITES.   Proof. intros x [<-|[]]. now left. Qed
 Lemma in_sites_2 : incl [E_STRUCT] SITES. Proof. intros x [<-|[]]. right. now left. Qed.
 Lemma in_sites_3 : incl [E_UNION] SITES.  Proof. intros x [<-|[]]. right. right. now left. Qed.
 
+Lemma declR_one (m : eres node) (sites : list string) :
+  incl sites SITES -> only_panics sites m -> (forall x, m = EOk x -> const_shaped x) ->
+  declR (ebind m (fun x => EOk [x])).
+Proof.
+  intros Hi Hm Hs. destruct m as [x| |w]; cbn [ebind].
+  - split; [constructor|]. intros l E. inversion E; subst. constructor; [now apply Hs|constructor].
+  - inversion Hm.
+  - split; [|discriminate]. inversion Hm; subst. constructor. now apply Hi.
+Qed.
+
+Lemma declR_ok x : const_shaped x -> declR (EOk [x]).
+Proof. intros H. split; [apply op_ok|]. intros l E. inversion E; subst. constructor; [exact H|constructor]. Qed.
+
+Lemma declR_panic w : In w SITES -> declR (EPanic w).
+Proof. intros H. split; [now apply op_panic|discriminate]. Qed.
+
 (* constant *)
 Lemma W_constant ts : D (PRef "constant") ts -> declR (walk_list ts).
 Proof.
-  intros H. dinv H. repeat match goal with X : D (PSeq _ _) _ |- _ => dinv X end.
-  repeat match goal with X : D (PStr _) _ |- _ => dinv X end.
-  repeat match goal with X : D (PRef "ident") _ |- _ => destruct (D_ident _ X) as [? ->]; clear X end.
-  cbn [app walk_list]. rewrite walk_node. cbn. split; [constructor|]. intros l E. inversion E; subst.
-  constructor; [|constructor]. cbn. eauto.
+  intros H. dinv H; explode; leaves; classes.
+  cbn [walk_list]. rewrite walk_node. cbn [String.eqb Ascii.eqb Bool.eqb orb]. wl.
+  apply declR_ok. cbn. eauto.
 Qed.
 
 (* typedef *)
 Lemma W_typedef ts : D (PRef "typedef") ts -> declR (walk_list ts).
 Proof.
-  intros H. dinv H. repeat match goal with X : D (PSeq _ _) _ |- _ => dinv X end.
-  repeat match goal with X : D (PStr _) _ |- _ => dinv X end.
-  match goal with X : D (PChoice (PRef "ident") (PRef "basic_type")) _ |- _ => destruct (W_ty _ X) as [a Ha] end.
-  match goal with X : D (PRef "ident") _ |- _ => destruct (W_ident _ X) as [b Hb] end.
-  match goal with X : D (POpt (PRef "array")) _ |- _ => destruct (W_arr _ X) as (arr & Harr & HarrN) end.
-  cbn [app walk_list]. rewrite walk_node. cbn [String.eqb Ascii.eqb Bool.eqb orb].
-  match goal with |- declR (ebind (ebind (walk_list ?cs) _) _) =>
-    assert (Hk : walk_list cs = EOk ([NType a] ++ [NType b] ++ arr ++ []))
-      by (apply walk_list_app_ok; [exact Ha|]; apply walk_list_app_ok; [exact Hb|]; apply walk_list_app_ok; [exact Harr|reflexivity]);
-    rewrite Hk end.
-  cbn [app ebind]. rewrite app_nil_r.
-  assert (Ht : exists x, typedef_new (NType a :: NType b :: arr) = EOk x).
-  { destruct HarrN as [->|[s [->| ->]]]; cbn [typedef_new]; [eauto|destruct (is_opaque a); eauto|eauto]. }
-  destruct Ht as [x ->]. cbn [ebind]. split; [constructor|]. intros l E. inversion E; subst. repeat constructor.
+  intros H. dinv H; explode; leaves; classes;
+    (cbn [walk_list]; rewrite walk_node; cbn [String.eqb Ascii.eqb Bool.eqb orb]; wl; cbn [typedef_new];
+     repeat match goal with |- context [is_opaque ?a] => destruct (is_opaque a) end; cbn [ebind];
+     apply declR_ok; exact I).
 Qed.
 
 (* struct *)
-Lemma W_sdf ts : D (PRef "struct_data_field") ts -> exists l, walk_list ts = EOk [NStructDataField l] /\ fieldN l.
+Definition sdfP (l : list node) : Prop := exists f, l = [NStructDataField f] /\ fieldN f.
+Definition udfP (l : list node) : Prop := exists f, l = [NUnionDataField f] /\ fieldN f.
+
+Lemma W_sdf ts : D (PRef "struct_data_field") ts -> W ts sdfP.
 Proof.
-  intros H. dinv H. match goal with X : D (PRef "data_field") _ |- _ => destruct (W_field _ X) as (l & Hl & HlN) end.
-  exists l. split; [|exact HlN]. cbn [walk_list]. rewrite walk_node. cbn [String.eqb Ascii.eqb Bool.eqb orb]. rewrite Hl. reflexivity.
+  intros H. destruct (W_field_body _ ts (or_introl eq_refl) H) as (sp & cs & l & -> & Hw & Hf).
+  eexists. split; [cbn [walk_list]; rewrite walk_node; cbn [String.eqb Ascii.eqb Bool.eqb orb]; rewrite Hw; reflexivity|].
+  exists l. split; [reflexivity|exact Hf].
 Qed.
 
-Lemma W_sdf_list tss : Forall (D (PRef "struct_data_field")) tss ->
-  exists ls, walk_list (concat tss) = EOk (map NStructDataField ls) /\ Forall fieldN ls.
+Lemma W_udf ts : D (PRef "union_data_field") ts -> W ts udfP.
 Proof.
-  induction 1 as [|ts tss H _ (ls & Hls & HlsN)]; [exists []; split; [reflexivity|constructor]|].
-  destruct (W_sdf ts H) as (l & Hl & HlN). exists (l :: ls). split; [|constructor; assumption].
-  cbn [concat map]. change (NStructDataField l :: map NStructDataField ls) with ([NStructDataField l] ++ map NStructDataField ls).
-  now apply walk_list_app_ok.
+  intros H. destruct (W_field_body _ ts (or_intror eq_refl) H) as (sp & cs & l & -> & Hw & Hf).
+  eexists. split; [cbn [walk_list]; rewrite walk_node; cbn [String.eqb Ascii.eqb Bool.eqb orb]; rewrite Hw; reflexivity|].
+  exists l. split; [reflexivity|exact Hf].
 Qed.
+
+Ltac star_list L :=
+  match goal with
+  | X : D (PStar ?e) _ |- _ =>
+    let tss := fresh "tss" in let Hf := fresh "Hf" in let ls := fresh "ls" in let Hls := fresh "Hls" in let HlsP := fresh "HlsP" in
+    destruct (dv_star_list _ _ _ X) as (tss & -> & Hf); clear X;
+    destruct (W_list e _ L tss Hf) as (ls & Hls & HlsP)
+  end.
 
 Lemma W_struct ts : D (PRef "struct_type") ts -> declR (walk_list ts).
 Proof.
-  intros H. dinv H. repeat match goal with X : D (PSeq _ _) _ |- _ => dinv X end.
-  repeat match goal with X : D (PStr _) _ |- _ => dinv X end.
-  match goal with X : D (PRef "ident") _ |- _ => destruct (W_ident _ X) as [b Hb] end.
-  match goal with X : D (PStar _) _ |- _ => destruct (dv_star_list _ _ _ X) as (tss & -> & Hf) end.
-  destruct (W_sdf_list tss Hf) as (ls & Hls & HlsN).
-  cbn [app walk_list]. rewrite walk_node. cbn [String.eqb Ascii.eqb Bool.eqb orb].
-  match goal with |- declR (ebind (ebind (walk_list ?cs) _) _) =>
-    assert (Hk : walk_list cs = EOk ([NType b] ++ map NStructDataField ls ++ []))
-      by (apply walk_list_app_ok; [exact Hb|]; apply walk_list_app_ok; [exact Hls|reflexivity]);
-    rewrite Hk end.
-  cbn [app ebind]. rewrite app_nil_r. cbn [struct_new ident_str ebind].
-  assert (Hf2 : only_panics [E_STRUCT] (emapM struct_field_new (map NStructDataField ls))).
-  { apply op_emapM. intros x Hx. apply in_map_iff in Hx as (l & <- & Hl). apply field_new_outcome.
-    exact (proj1 (Forall_forall _ _) HlsN l Hl). }
-  destruct (emapM struct_field_new (map NStructDataField ls)) as [fs| |w]; cbn [ebind].
-  - split; [constructor|]. intros l E. inversion E; subst. repeat constructor.
+  intros H. dinv H; explode; leaves; classes. star_list W_sdf.
+  cbn [walk_list]. rewrite walk_node. cbn [String.eqb Ascii.eqb Bool.eqb orb]. wl. rewrite ?app_nil_r.
+  cbn [struct_new ident_str ebind].
+  assert (Hf2 : only_panics [E_STRUCT] (emapM struct_field_new (concat ls))).
+  { apply op_emapM. intros nd Hx. apply in_concat in Hx as (l & Hl & Hxl).
+    destruct (proj1 (Forall_forall _ _) HlsP l Hl) as (f & -> & Hfn). destruct Hxl as [<-|[]]. now apply field_new_outcome. }
+  destruct (emapM struct_field_new (concat ls)) as [fs| |w]; cbn [ebind].
+  - apply declR_ok. exact I.
   - inversion Hf2.
-  - split; [|discriminate]. inversion Hf2; subst. constructor. now apply in_sites_2.
+  - apply declR_panic. inversion Hf2; subst. now apply in_sites_2.
 Qed.
 
 (* enum *)
 Definition variantN (n : node) : Prop := exists a b, n = NEnumVariant [NType a; NType b].
+Definition variantP (l : list node) : Prop := exists n, l = [n] /\ variantN n.
 
-Lemma W_variant ts : D (PRef "enum_variant") ts -> exists n, walk_list ts = EOk [n] /\ variantN n.
+Lemma W_variant ts : D (PRef "enum_variant") ts -> W ts variantP.
 Proof.
-  intros H. dinv H. repeat match goal with X : D (PSeq _ _) _ |- _ => dinv X end.
-  repeat match goal with X : D (PStr _) _ |- _ => dinv X end.
-  repeat match goal with X : D (PRef "ident") _ |- _ => destruct (D_ident _ X) as [? ->]; clear X end.
-  eexists. split; [cbn [app walk_list]; rewrite walk_node; cbn; reflexivity|]. eexists _, _. reflexivity.
-Qed.
-
-Lemma W_variant_list (e : pexp) tss :
-  (forall ts, D e ts -> exists n, walk_list ts = EOk [n] /\ variantN n) ->
-  Forall (D e) tss -> exists ns, walk_list (concat tss) = EOk ns /\ Forall variantN ns.
-Proof.
-  intros He. induction 1 as [|ts tss H _ (ns & Hns & HnsN)]; [exists []; split; [reflexivity|constructor]|].
-  destruct (He ts H) as (n & Hn & HnN). exists ([n] ++ ns). split; [|constructor; assumption].
-  cbn [concat]. now apply walk_list_app_ok.
+  intros H. dinv H; explode; leaves; classes.
+  eexists. split; [cbn [walk_list]; rewrite walk_node; cbn [String.eqb Ascii.eqb Bool.eqb orb]; wl; reflexivity|].
+  eexists. split; [reflexivity|]. eexists _, _. reflexivity.
 Qed.
 
 Lemma variant_new_outcome n : variantN n -> only_panics [E_ENUM] (variant_new n).
@@ -234,79 +247,59 @@ Proof.
   intros (a & b & ->). cbn [variant_new ident_str ebind]. apply op_bind; [apply variant_value_outcome|intros; constructor].
 Qed.
 
+Lemma variants_outcome ls : Forall variantP ls -> only_panics [E_ENUM] (emapM variant_new (concat ls)).
+Proof.
+  intros H. apply op_emapM. intros nd Hx. apply in_concat in Hx as (l & Hl & Hxl).
+  destruct (proj1 (Forall_forall _ _) H l Hl) as (n & -> & Hn). destruct Hxl as [<-|[]]. now apply variant_new_outcome.
+Qed.
+
+(* an element of a repetition that is an enum_variant behind punctuation / silent rules *)
+Ltac elem_variant := intros ? ?; explode; leaf1 W_variant; cbn [app]; eexists; (split; [eassumption|assumption]).
+
+Lemma concat_app_P {A} (P : list A -> Prop) l1 l2 : Forall P l1 -> Forall P l2 -> Forall P (l1 ++ l2).
+Proof. intros. apply Forall_app. split; assumption. Qed.
+
 Lemma W_enum ts : D (PRef "enum_type") ts -> declR (walk_list ts).
 Proof.
-  intros H. dinv H. repeat match goal with X : D (PSeq _ _) _ |- _ => dinv X end.
-  repeat match goal with X : D (PStr _) _ |- _ => dinv X end.
-  match goal with X : D (PRef "ident") _ |- _ => destruct (W_ident _ X) as [b Hb] end.
-  match goal with X : D (PPlus _) _ |- _ => destruct (dv_plus_list _ _ _ X) as (tss1 & -> & Hf1) end.
-  match goal with X : D (PStar _) _ |- _ => destruct (dv_star_list _ _ _ X) as (tss2 & -> & Hf2) end.
-  destruct (W_variant_list _ tss1 W_variant Hf1) as (ns1 & Hns1 & HnsN1).
-  assert (He2 : forall ts, D (PSeq (PStr ",") (PRef "enum_variant")) ts -> exists n, walk_list ts = EOk [n] /\ variantN n).
-  { intros ts X. dinv X. match goal with Y : D (PStr _) _ |- _ => dinv Y end. cbn [app]. now apply W_variant. }
-  destruct (W_variant_list _ tss2 He2 Hf2) as (ns2 & Hns2 & HnsN2).
-  cbn [app walk_list]. rewrite walk_node. cbn [String.eqb Ascii.eqb Bool.eqb orb].
-  match goal with |- declR (ebind (ebind (walk_list ?cs) _) _) =>
-    assert (Hk : walk_list cs = EOk ([NType b] ++ ns1 ++ ns2 ++ []))
-      by (apply walk_list_app_ok; [exact Hb|]; apply walk_list_app_ok; [exact Hns1|]; apply walk_list_app_ok; [exact Hns2|reflexivity]);
-    rewrite Hk end.
-  cbn [app ebind]. rewrite app_nil_r. cbn [enum_new ident_str ebind].
-  assert (Hv : only_panics [E_ENUM] (emapM variant_new (ns1 ++ ns2))).
-  { apply op_emapM. intros x Hx. apply variant_new_outcome. apply in_app_or in Hx as [Hx|Hx];
-      [exact (proj1 (Forall_forall _ _) HnsN1 x Hx)|exact (proj1 (Forall_forall _ _) HnsN2 x Hx)]. }
-  destruct (emapM variant_new (ns1 ++ ns2)) as [vs| |w]; cbn [ebind].
-  - split; [constructor|]. intros l E. inversion E; subst. repeat constructor.
+  intros H. dinv H; explode; leaves; classes.
+  match goal with X : D (PPlus ?e) _ |- _ => destruct (dv_plus_list _ _ _ X) as (tss1 & -> & Hf1); clear X;
+    assert (He1 : forall ts, D e ts -> W ts variantP) by elem_variant;
+    destruct (W_list e _ He1 tss1 Hf1) as (ls1 & Hls1 & HlsP1) end.
+  match goal with X : D (PStar ?e) _ |- _ => destruct (dv_star_list _ _ _ X) as (tss2 & -> & Hf2); clear X;
+    assert (He2 : forall ts, D e ts -> W ts variantP) by elem_variant;
+    destruct (W_list e _ He2 tss2 Hf2) as (ls2 & Hls2 & HlsP2) end.
+  cbn [walk_list]. rewrite walk_node. cbn [String.eqb Ascii.eqb Bool.eqb orb]. wl. rewrite ?app_nil_r.
+  cbn [enum_new ident_str ebind]. rewrite <- concat_app.
+  pose proof (variants_outcome (ls1 ++ ls2) (concat_app_P _ _ _ HlsP1 HlsP2)) as Hv.
+  destruct (emapM variant_new (concat (ls1 ++ ls2))) as [vs| |w]; cbn [ebind].
+  - apply declR_ok. exact I.
   - inversion Hv.
-  - split; [|discriminate]. inversion Hv; subst. constructor. now apply in_sites_1.
+  - apply declR_panic. inversion Hv; subst. now apply in_sites_1.
 Qed.
 
 (* union *)
-Definition armN (l : list node) : Prop := l = [NUnionVoid] \/ exists f, l = [NUnionDataField f] /\ fieldN f.
+Definition armN (l : list node) : Prop := l = [NUnionVoid] \/ udfP l.
 Definition caseN (n : node) : Prop :=
   (exists v arm, n = NUnionCase (NType v :: arm) /\ (arm = [] \/ armN arm)) \/ (exists arm, n = NUnionDefault arm /\ armN arm).
+Definition caseP (l : list node) : Prop := exists n, l = [n] /\ caseN n.
 
-Definition arm_exp : pexp := PChoice (PRef "union_data_field") (PRef "union_void").
+Lemma W_void ts : D (PRef "union_void") ts -> W ts (fun l => l = [NUnionVoid]).
+Proof. intros H. dinv H; (eexists; split; [cbn [walk_list]; rewrite walk_node; reflexivity|reflexivity]). Qed.
 
-Lemma W_arm ts : D arm_exp ts -> exists l, walk_list ts = EOk l /\ armN l.
+Ltac arms := repeat first [leaf1 W_udf | leaf1 W_void].
+
+Lemma W_ucase ts : D (PRef "union_case") ts -> W ts caseP.
 Proof.
-  intros H. dinv H.
-  - match goal with X : D (PRef "union_data_field") _ |- _ => dinv X end.
-    match goal with X : D (PRef "data_field") _ |- _ => destruct (W_field _ X) as (l & Hl & HlN) end.
-    exists [NUnionDataField l]. split; [|right; eauto].
-    cbn [walk_list]. rewrite walk_node. cbn [String.eqb Ascii.eqb Bool.eqb orb]. rewrite Hl. reflexivity.
-  - match goal with X : D (PRef "union_void") _ |- _ => dinv X end.
-    exists [NUnionVoid]. split; [|now left]. cbn [walk_list]. rewrite walk_node. reflexivity.
+  intros H. dinv H; explode; leaves; arms; classes;
+    (eexists; split; [cbn [walk_list]; rewrite walk_node; cbn [String.eqb Ascii.eqb Bool.eqb orb]; wl; reflexivity|];
+     eexists; split; [reflexivity|]; left; eexists _, _; split; [reflexivity|]; subst; unfold armN; eauto).
 Qed.
 
-Lemma W_case ts : D (PChoice (PRef "union_case") (PRef "union_default")) ts -> exists n, walk_list ts = EOk [n] /\ caseN n.
+Lemma W_udefault ts : D (PRef "union_default") ts -> W ts caseP.
 Proof.
-  intros H. dinv H.
-  - match goal with X : D (PRef "union_case") _ |- _ => dinv X end.
-    repeat match goal with X : D (PSeq _ _) _ |- _ => dinv X end.
-    repeat match goal with X : D (PStr _) _ |- _ => dinv X end.
-    match goal with X : D (PRef "union_case_value") _ |- _ => dinv X end.
-    match goal with X : D (PChoice (PRef "ident_value") (PRef "ident_const")) _ |- _ => destruct (W_len _ X) as [[v Hv] _] end.
-    match goal with X : D (POpt _) _ |- _ => dinv X end.
-    + exists (NUnionCase [NType v]). split; [|left; exists v, []; split; [reflexivity|now left]].
-      cbn [app walk_list]. rewrite walk_node. cbn [String.eqb Ascii.eqb Bool.eqb orb]. rewrite app_nil_r, Hv. reflexivity.
-    + match goal with X : D (PChoice (PRef "union_data_field") (PRef "union_void")) _ |- _ => destruct (W_arm _ X) as (l & Hl & HlN) end.
-      exists (NUnionCase (NType v :: l)). split; [|left; exists v, l; split; [reflexivity|now right]].
-      cbn [app walk_list]. rewrite walk_node. cbn [String.eqb Ascii.eqb Bool.eqb orb].
-      rewrite (walk_list_app_ok _ _ _ _ Hv Hl). reflexivity.
-  - match goal with X : D (PRef "union_default") _ |- _ => dinv X end.
-    repeat match goal with X : D (PSeq _ _) _ |- _ => dinv X end.
-    repeat match goal with X : D (PStr _) _ |- _ => dinv X end.
-    match goal with X : D (PChoice (PRef "union_data_field") (PRef "union_void")) _ |- _ => destruct (W_arm _ X) as (l & Hl & HlN) end.
-    exists (NUnionDefault l). split; [|right; eauto].
-    cbn [app walk_list]. rewrite walk_node. cbn [String.eqb Ascii.eqb Bool.eqb orb]. rewrite Hl. reflexivity.
-Qed.
-
-Lemma W_case_list tss : Forall (D (PChoice (PRef "union_case") (PRef "union_default"))) tss ->
-  exists ns, walk_list (concat tss) = EOk ns /\ Forall caseN ns.
-Proof.
-  induction 1 as [|ts tss H _ (ns & Hns & HnsN)]; [exists []; split; [reflexivity|constructor]|].
-  destruct (W_case ts H) as (n & Hn & HnN). exists ([n] ++ ns). split; [|constructor; assumption].
-  cbn [concat]. now apply walk_list_app_ok.
+  intros H. dinv H; explode; leaves; arms; classes;
+    (eexists; split; [cbn [walk_list]; rewrite walk_node; cbn [String.eqb Ascii.eqb Bool.eqb orb]; wl; reflexivity|];
+     eexists; split; [reflexivity|]; right; eexists; split; [reflexivity|]; subst; unfold armN; eauto).
 Qed.
 
 Lemma case_stmt_outcome cv nodes :
@@ -326,41 +319,27 @@ Proof.
   - apply op_bind; [apply case_stmt_outcome; now right|]. intros st _. destruct st; apply IH.
 Qed.
 
+Lemma caseP_nodes ls : Forall caseP ls -> Forall caseN (concat ls).
+Proof.
+  induction 1 as [|l ls (n & -> & Hn) _ IH]; cbn [concat]; [constructor|]. constructor; assumption.
+Qed.
+
+Ltac elem_case := intros ? ?; explode; first [leaf1 W_ucase | leaf1 W_udefault]; cbn [app]; eexists; (split; [eassumption|assumption]).
+
 Lemma W_union ts : D (PRef "union") ts -> declR (walk_list ts).
 Proof.
-  intros H. dinv H. repeat match goal with X : D (PSeq _ _) _ |- _ => dinv X end.
-  repeat match goal with X : D (PStr _) _ |- _ => dinv X end.
-  match goal with X : D (PChoice (PRef "ident") (PRef "basic_type")) _ |- _ => destruct (W_ty _ X) as [a Ha] end.
-  match goal with X : D (PStar _) _ |- _ => destruct (dv_star_list _ _ _ X) as (tss & -> & Hf) end.
-  destruct (W_case_list tss Hf) as (ns & Hns & HnsN).
-  repeat match goal with X : D (PRef "ident") ?t |- _ => let b := fresh "b" in let Hb := fresh "Hb" in destruct (W_ident _ X) as [b Hb]; clear X end.
-  cbn [app walk_list]. rewrite walk_node. cbn [String.eqb Ascii.eqb Bool.eqb orb].
-  match goal with |- declR (ebind (ebind (walk_list (?t1 ++ ?t2 ++ ?t3 ++ _)) _) _) =>
-    match goal with H1 : walk_list t1 = EOk [NType ?x1], H3 : walk_list t3 = EOk [NType ?x3] |- _ =>
-      assert (Hk : walk_list (t1 ++ t2 ++ t3 ++ concat tss ++ []) = EOk ([NType x1] ++ [NType a] ++ [NType x3] ++ ns ++ []))
-        by (apply walk_list_app_ok; [exact H1|]; apply walk_list_app_ok; [exact Ha|]; apply walk_list_app_ok; [exact H3|];
-            apply walk_list_app_ok; [exact Hns|reflexivity]);
-      rewrite Hk end end.
-  cbn [app ebind]. rewrite app_nil_r. cbn [union_new ident_str ebind].
-  pose proof (union_loop_outcome ns HnsN {| ua_cases := []; ua_default := None; ua_void := []; ua_pending := [] |}) as Hu.
-  destruct (union_loop ns _) as [acc| |w]; cbn [ebind].
-  - split; [constructor|]. intros l E. inversion E; subst. repeat constructor.
-  - inversion Hu.
-  - split; [|discriminate]. inversion Hu; subst. constructor. now apply in_sites_3.
+  intros H. dinv H; explode; leaves; classes;
+  (match goal with X : D (PStar ?e) _ |- _ => destruct (dv_star_list _ _ _ X) as (tss & -> & Hf); clear X;
+    assert (He : forall ts, D e ts -> W ts caseP) by elem_case;
+    destruct (W_list e _ He tss Hf) as (ls & Hls & HlsP) end;
+   cbn [walk_list]; rewrite walk_node; cbn [String.eqb Ascii.eqb Bool.eqb orb]; wl; rewrite ?app_nil_r;
+   cbn [union_new ident_str ebind];
+   pose proof (union_loop_outcome (concat ls) (caseP_nodes ls HlsP) {| ua_cases := []; ua_default := None; ua_void := []; ua_pending := [] |}) as Hu;
+   (destruct (union_loop (concat ls) _) as [acc| |w]; cbn [ebind];
+    [apply declR_ok; exact I|inversion Hu|apply declR_panic; inversion Hu; subst; now apply in_sites_3])).
 Qed.
 
 (* ---------- the declaration list ---------- *)
-
-Definition decl_exp : pexp :=
-  PChoice (PRef "constant") (PChoice (PRef "typedef") (PChoice (PRef "enum_type") (PChoice (PRef "struct_type") (PRef "union")))).
-
-Lemma W_decl ts : D decl_exp ts -> declR (walk_list ts).
-Proof.
-  intros H. dinv H; [now apply W_constant|].
-  match goal with X : D (PChoice _ _) _ |- _ => dinv X end; [now apply W_typedef|].
-  match goal with X : D (PChoice _ _) _ |- _ => dinv X end; [now apply W_enum|].
-  match goal with X : D (PChoice _ _) _ |- _ => dinv X end; [now apply W_struct|now apply W_union].
-Qed.
 
 Lemma declR_app a b : declR (walk_list a) -> declR (walk_list b) -> declR (walk_list (a ++ b)).
 Proof.
@@ -374,22 +353,28 @@ Proof.
   - split; [exact Ha|discriminate].
 Qed.
 
-Lemma W_decl_list tss : Forall (D decl_exp) tss -> declR (walk_list (concat tss)).
+Lemma W_decl_list (e : pexp) tss :
+  (forall ts, D e ts -> declR (walk_list ts)) -> Forall (D e) tss -> declR (walk_list (concat tss)).
 Proof.
-  induction 1 as [|ts tss H _ IH]; cbn [concat].
+  intros He. induction 1 as [|ts tss H _ IH]; cbn [concat].
   - split; [constructor|]. intros l E. inversion E. constructor.
-  - apply declR_app; [now apply W_decl|exact IH].
+  - apply declR_app; [now apply He|exact IH].
 Qed.
+
+Ltac elem_decl :=
+  intros ? ?; explode;
+  first [apply W_constant; assumption | apply W_typedef; assumption | apply W_enum; assumption
+        | apply W_struct; assumption | apply W_union; assumption].
 
 Definition FRONT_SITES : list string := [E_ENUM; E_CONST; E_STRUCT; E_UNION].
 
 (* every derivation of `item` *)
 Theorem derivation_total t : D (PRef "item") [t] -> only_panics FRONT_SITES (ast_new t).
 Proof.
-  intros H. dinv H. repeat match goal with X : D (PSeq _ _) _ |- _ => dinv X end.
-  match goal with X : D PSoi _ |- _ => dinv X end. match goal with X : D PEoi _ |- _ => dinv X end.
-  match goal with X : D (PStar _) _ |- _ => destruct (dv_star_list _ _ _ X) as (tss & -> & Hf) end.
-  destruct (W_decl_list tss Hf) as [Hop Hshape].
+  intros H. dinv H; explode.
+  match goal with X : D (PStar ?e) _ |- _ => destruct (dv_star_list _ _ _ X) as (tss & -> & Hf); clear X;
+    assert (He : forall ts, D e ts -> declR (walk_list ts)) by elem_decl;
+    destruct (W_decl_list e tss He Hf) as [Hop Hshape] end.
   unfold ast_new. rewrite walk_node. cbn [String.eqb Ascii.eqb Bool.eqb orb app].
   rewrite walk_list_app_gen. cbn [walk_list]. rewrite walk_node. cbn [String.eqb Ascii.eqb Bool.eqb orb ebind].
   destruct (walk_list (concat tss)) as [items| |w]; cbn [ebind].
